@@ -104,6 +104,7 @@ def check_case(spec: dict) -> dict:
     else:
         bn, bi, _ = base[1]
         rn, ri, _ = run[1]
+        bi_raw, ri_raw = set(bi), set(ri)  # incl. imports of the importer's own ancestor packages (e.g. 'import proj')
         bi, ri = PS.drop_ancestor_imports(bi), PS.drop_ancestor_imports(ri)
         if set(bn) != internal_nodes:
             v("default/modules", f"default scan modules {sorted(bn)} != internal {sorted(internal_nodes)}")
@@ -111,10 +112,14 @@ def check_case(spec: dict) -> dict:
             v("default/imports", f"default scan imports {sorted(bi)} != {sorted(int_imports)}")
         # internal sub-architecture identical
         r_int_nodes = {n for n in rn if n in internal_nodes}
-        r_int_imps = {(a, b) for a, b in ri if a in internal_nodes and b in internal_nodes}
+        # identity of the internal part is required of every import among internal modules, ancestor imports included
+        # (packages above module_path are nodes of the graph but lie outside module_path: an import of one of them is an
+        # import of something external)
+        r_int_imps = {(a, b) for a, b in ri_raw if a in internal and b in internal}
+        bi = bi_raw
         if r_int_nodes != set(bn) & internal_nodes:
             v(f"internal-modules-changed/{opt['mode']}", f"option {opt}: internal modules lost={sorted((set(bn) & internal_nodes) - r_int_nodes)}", mode=opt["mode"])
-        if r_int_imps != {(a, b) for a, b in bi if a in internal_nodes and b in internal_nodes}:
+        if r_int_imps != {(a, b) for a, b in bi if a in internal and b in internal}:
             v(f"internal-imports-changed/{opt['mode']}", f"option {opt}: internal imports {sorted(r_int_imps)} != default {sorted(bi)}", mode=opt["mode"])
         ext_nodes = set(rn) - internal_nodes
         if opt["mode"] == "exclude":
